@@ -57,6 +57,13 @@ def directed_histories():
         H("select order changed", [R({"select": ["opt", "lib"]}), R({"select": ["lib", "opt"]})]),
         H("disable order changed", [R({"disable": ["opt", "lib"]}), R({"disable": ["lib", "opt"]})]),
         H("select repeated", [R({"select": ["opt"]}), R({"select": ["opt", "opt"]})]),
+        H("a failing run with --info-export (it does not read the cache, but it rewrites the ninja file), then the first command again",
+          [R({}), R({"apps": ["nosuchapp"]}, info=True), R({})]),
+        H("a run with --info-export killed after it truncated the ninja file, then the first command", [R(b0), R(b0, stop=3, info=True), R(b0)]),
+        H("--info-export never reads the cache, but writes it", [R(b0, info=True), R(b0, info=True), R(b0)]),
+        H("the cache file is truncated to nothing (a kill inside its write)", [R({}), dict(op="corrupt", local=False, size=0), R({})]),
+        H("the cache file is truncated inside the binary stamp", [R({}), dict(op="corrupt", local=False, size=8), R({"builders": ["b1"]})]),
+        H("the cache file is truncated after the stamp", [R(b0), dict(op="corrupt", local=False, size=40), R(b0), R(b0)]),
         H("optional select, then the same name as a hard select (it does not exist: every build goes)", [R({"select": ["?nosuchmodule"]}), R({"select": ["nosuchmodule"]})]),
         H("hard select, then the same name as an optional one", [R({"select": ["nosuchmodule"]}), R({"select": ["?nosuchmodule"]})]),
         H("optional and hard select of a module one builder disables", [R({"select": ["?opt"], "disable": []}), R({"select": ["opt"]}), R({"select": ["?opt"]})]),
@@ -130,6 +137,20 @@ def import_histories():
                 ("%s local import: laze.yml appears next to laze-project.yml" % kind, dict(versions=vs2, tree0=t5, ops=[R({}), E(t6), R({"builders": ["b1"]})]))]
     return out
 
+def write_error_histories():
+    """write errors (a full disk, a quota: here a file size limit) are not in the machine: these histories are checked on
+    the implementation alone — a run under the limit either fails or leaves the file a run without the limit leaves, and
+    the last run of the history equals the same run in an empty build directory"""
+    f = base_project()
+    vs = {"laze-project.yml": [f["laze-project.yml"]]}; t1 = {"laze-project.yml": 1}
+    R = lambda cli, **sc: dict(op="run", cli=cli, stop=0, sc=sc)
+    out = []
+    for lim in (0, 700, 2048, 4096, 8192):
+        for a, b in (({}, {}), ({"builders": ["b0"]}, {}), ({}, {"define": ["CFLAGS+=-Dother"]})):
+            out.append(("file size limit %d for the second run" % lim,
+                        dict(versions=vs, tree0=t1, ops=[R(a, generate_only=True), R(b, generate_only=True, fsize=lim), R(b, generate_only=True)])))
+    return out
+
 # ---------------------------------------------------------------- known findings: witnesses on the implementation
 def witness_stat_collision(laze):
     """an edit that keeps a file's length and modification time"""
@@ -181,7 +202,7 @@ def run(rep, tier, seed, rng):
     open_known = {k["key"] for k in core.load_known() if k.get("property") == "C08" and k.get("status") == "open"}
     for nm, h, (root, steps, fresh), rp in zip(names, hs, res, reps):
         lens[len(h["ops"])] += 1
-        desc = [("run", proj.argv(o["cli"]), o.get("stop", 0), o.get("sc", {}), "binary %d" % o.get("bin", 1)) if o["op"] == "run" else ("edit", o["tree"]) for o in h["ops"]]
+        desc = [("run", proj.argv(o["cli"]), o.get("stop", 0), o.get("sc", {}), "binary %d" % o.get("bin", 1)) if o["op"] == "run" else ("edit", o["tree"]) if o["op"] == "edit" else ("cache file truncated", "local" if o["local"] else "global", o["size"]) for o in h["ops"]]
         data = dict(name=nm, history=desc, versions={f: len(v) for f, v in h["versions"].items()}, full=h,
                     impl=[None if s is None else dict(rc=s["rc"], cache_hit=s["cache_hit"], ninja_argv=s["ninja_argv"], tasks=s["tasks"], stderr=s["stderr"][-200:]) for s in steps])
         # the property on the implementation
@@ -204,9 +225,9 @@ def run(rep, tier, seed, rng):
             rep.violation("side condition of C08_hit_is_fresh fails: loaded contexts with equal names", data, found_input=False); m = m[1:]
         for x in m: kinds[x["kind"]] += 1
         dis = hist.compare(h, steps, m)
-        if dis and not pv and dis[0][0] < len(h["ops"]) - 1 and any("served from the cache" in d_ for _, d_ in dis):
-            # the machine regenerates where the implementation serves the cache, before the end of the history: make that
-            # step the last one and ask the property itself (the run against the same run in an empty build directory)
+        if dis and not pv and dis[0][0] < len(h["ops"]) - 1 and steps[dis[0][0]] is not None and steps[dis[0][0]]["cache_hit"]:
+            # the first disagreement is at a run the implementation served from the cache, before the end of the history:
+            # make that step the last one and ask the property itself (the run against the same run in an empty build directory)
             h2 = dict(h, ops=h["ops"][:dis[0][0] + 1])
             _, steps2, fresh2 = hist.execute(laze, h2)
             pv = ["(history cut after step %d) " % dis[0][0] + x for x in hist.property_check(h2, steps2, fresh2)]
@@ -214,6 +235,21 @@ def run(rep, tier, seed, rng):
                 nprop += 1
                 rep.violation("after this history the last run differs from the same run in an empty build directory: " + "; ".join(pv)[:600],
                               dict(data, history=desc[:dis[0][0] + 1], full=h2), found_input=True)
+        if dis and not pv and steps[dis[0][0]] is not None and not steps[dis[0][0]]["cache_hit"] and any(x_["kind"] == "G" for x_ in m[:dis[0][0]]):
+            # the first disagreement is at a run that did not hit (e.g. a failing run that leaves other files behind than the
+            # machine says): continue the history the way that makes such a difference matter — back to the tree and the
+            # arguments of the last complete run before it — and ask the property there
+            k0 = dis[0][0]; j0 = max(i_ for i_ in range(k0) if m[i_]["kind"] == "G")
+            tree_j = dict(h["tree0"])
+            for o_ in h["ops"][:j0]:
+                if o_["op"] == "edit": tree_j = dict(o_["tree"])
+            h2 = dict(h, ops=h["ops"][:k0 + 1] + [dict(op="edit", tree=tree_j), dict(h["ops"][j0], stop=0)])
+            _, steps2, fresh2 = hist.execute(laze, h2)
+            pv = ["(history continued after step %d with the tree and arguments of step %d) " % (k0, j0) + x for x in hist.property_check(h2, steps2, fresh2)]
+            if pv:
+                nprop += 1
+                rep.violation("after this history the last run differs from the same run in an empty build directory: " + "; ".join(pv)[:600],
+                              dict(data, full=h2), found_input=True)
         if dis:
             ndis += 1
             rep.violation("history: implementation and cache machine differ at step %d: %s" % (dis[0][0], "; ".join(d for _, d in dis)[:500]),
@@ -238,6 +274,23 @@ def run(rep, tier, seed, rng):
             nimp += 1
             rep.violation("imports: " + nm + ": " + "; ".join(pv)[:500],
                           dict(name=nm, full=h, impl=[None if s_ is None else dict(rc=s_["rc"], cache_hit=s_["cache_hit"], stderr=s_["stderr"][-200:]) for s_ in steps]), found_input=True)
+    # write errors: implementation level
+    wes = write_error_histories()
+    with ThreadPoolExecutor(core.NCPU) as ex:
+        wres = list(ex.map(lambda nh: hist.execute(laze, nh[1]), wes))
+    nwe = 0
+    for (nm, h), (root, steps, fresh) in zip(wes, wres):
+        pv = hist.property_check(h, steps, fresh)
+        lim_step = steps[1]
+        if lim_step["rc"] == 0 and fresh is not None and fresh["rc"] == 0 and lim_step["ninja"] != fresh["ninja"]:
+            pv.append("the run under the file size limit exits 0 but leaves a ninja file of %d bytes (without the limit: %d)" % (len(lim_step["ninja"] or b""), len(fresh["ninja"] or b"")))
+        if any(s_["rc"] not in (0, 1) for s_ in steps if s_ is not None):
+            pv.append("unexpected exit status %s" % [s_["rc"] for s_ in steps if s_ is not None])
+        if pv:
+            nwe += 1
+            rep.violation("write error: " + nm + ": " + "; ".join(pv)[:500],
+                          dict(name=nm, full=h, impl=[None if s_ is None else dict(rc=s_["rc"], cache_hit=s_["cache_hit"], stderr=s_["stderr"][-200:]) for s_ in steps]), found_input=True)
+    rep.cov.update(write_error_histories=len(wes), write_error_violations=nwe)
     # cross-check extraction on a few histories inside Coq
     small = sorted([i for i in range(len(reqs)) if not tables[i]], key=lambda i: len(reqs[i]))[:6]      # (requests that needed no evalexpr answers)
     nvm, bad = core.vm_crosscheck([reqs[i] for i in small], [reps[i] for i in small], n=6)
@@ -258,7 +311,7 @@ def run(rep, tier, seed, rng):
                         "after removing the build directory. non-trivial = a history with a cache hit and at least one failing/killed run or edit" % (len(named), n),
                    histories=len(hs), history_lengths=dict(lens), step_kinds=dict(kinds), model_rejects=rejected, disagreements=ndis,
                    property_violations=nprop, import_histories=len(imps), import_history_violations=nimp, final_hits_compared_with_fresh=hits_checked, vm_crosschecked=nvm, known_finding_witnesses=wit,
-                   samples=[dict(history=[("run", proj.argv(o["cli"]), o.get("stop", 0)) if o["op"] == "run" else ("edit", o["tree"]) for o in hs[len(named)]["ops"]])])
+                   samples=[dict(history=[("run", proj.argv(o["cli"]), o.get("stop", 0)) if o["op"] == "run" else ("edit", o.get("tree")) for o in hs[len(named)]["ops"]])])
     rep.assumptions += [
         "a file's (len, mtime) determines its content: the harness gives every version of a file its own mtime; an edit that keeps both is the open finding K08:same-len-same-mtime-edit",
         "load() and the stat of the loaded files are atomic w.r.t. edits in the model; in the code an edit between them makes the run write no cache (fix of K08:edit-between-parse-and-stat); the pause-hook witness is run on every check and must not reproduce",
